@@ -94,10 +94,9 @@ def run(ctx):
     r_thread(ctx, isd, "probs", "state_distinguishability.state_distinguishability")
     r_thread(ctx, isd, "states", "state_distinguishability.state_distinguishability", formal="vectors")
     rets, N = return_terms(m, isd, inline=True)
-    ok = False
-    for rn, facts, t in rets:
-        ok = t[0] == "call" and t[1] == "numpy.isclose" and ("c", 1) in t[2]
-    ctx.ob("R-PRED", isd, "perfectly distinguishable iff optimum is 1", ok, "isclose(value, 1)" if ok else "verdict is not `value == 1`")
+    good = [t[0] == "call" and t[1] == "numpy.isclose" and ("c", 1) in t[2] and "state_distinguishability" in repr(t) for rn, facts, t in rets]
+    ok = bool(good) and all(good)
+    ctx.ob("R-PRED", isd, "perfectly distinguishable iff optimum is 1", ok, "every return is isclose(optimum, 1)" if ok else "a return path decides distinguishability by something other than `optimum == 1`")
     # to_density_matrix, gram
     td = m.func("to_density_matrix.to_density_matrix")
     Nt = Normalizer(m, td, inline=False)
